@@ -125,6 +125,14 @@ class SeqScan:
 
 
 @dataclass(frozen=True)
+class SeqFilter:
+    """result of an in-place filtering operation (retain / dedup_by): a subsequence of unknown length"""
+    seq: Any
+    kind: str
+    summary: Any
+
+
+@dataclass(frozen=True)
 class SeqConcat:
     parts: Tuple[Any, ...]
 
